@@ -82,6 +82,7 @@ def GI(c):
             and c._inbound_flow_control_window_manager.max_window_size <= MAXWIN
             and c._inbound_flow_control_window_manager.current_window_size <= c._inbound_flow_control_window_manager.max_window_size
             and c._inbound_flow_control_window_manager._bytes_processed >= 0
+            and len(c._closed_streams) <= c._closed_streams._size_limit
             and all(STREAM_INV(c, c.streams[k], k) for k in c.streams))
 
 
@@ -117,3 +118,10 @@ def SETTINGS_OK(s):
 def accepted_data(result):
     """The DATA frame was delivered to the application (a DataReceived event)."""
     return len(result[1]) >= 1 and class_name(result[1][0]) == "DataReceived"
+
+
+def count_open(streams, r):
+    """RFC 7540 5.1.2: streams in open / half-closed states with parity r
+    (reserved states do not count).  StreamState: OPEN=3, HALF_CLOSED_REMOTE=4,
+    HALF_CLOSED_LOCAL=5."""
+    return sum(1 for k in streams if streams[k].state_machine.state.value in (3, 4, 5) and k % 2 == r)
